@@ -22,6 +22,7 @@ type seg struct {
 	rootOK   bool
 	sth      int  // genuine tree size handed out in this segment (-1: none)
 	consOK   bool // a genuine proof for (rootSize, sth) was served
+	proven   int  // the STH size that proof was requested for and served: the size verified against the destination root (-1: none)
 	consAny  bool
 	adds     []ev
 	fatal    bool // a scripted fatal reply
@@ -71,13 +72,13 @@ func check(t *testing.T, c Case) (v harness.Verdict) {
 		lastSTH[i] = -1
 	}
 	garbageCopied, writes := 0, 0
-	beyondFlagged := false
+	beyondFlagged, provenFlagged := false, false
 	for _, e := range o.evs {
 		switch e.Kind {
 		case "stray":
 			v.Failf("unknown-endpoint", "request for %s", e.CancelReason)
 		case "root":
-			cur = &seg{pass: e.Pass, rootSize: e.Size, rootOK: e.RootOK, sth: -1}
+			cur = &seg{pass: e.Pass, rootSize: e.Size, rootOK: e.RootOK, sth: -1, proven: -1}
 			segs = append(segs, cur)
 		case "sth":
 			if e.Fault != fNone {
@@ -98,7 +99,11 @@ func check(t *testing.T, c Case) (v harness.Verdict) {
 			if cur != nil {
 				cur.consAny = true
 				if e.Fault == fNone && e.Status == 200 && int(e.First) == cur.rootSize && int(e.Second) == cur.sth {
+					// the head in hand when the proof was asked for; a head fetched afterwards is not covered by it
 					cur.consOK = true
+					if int(e.Second) > cur.proven {
+						cur.proven = int(e.Second)
+					}
 				}
 			}
 		case "entries":
@@ -144,6 +149,12 @@ func check(t *testing.T, c Case) (v harness.Verdict) {
 				idx := l.LeafIndex
 				if idx != e.First+int64(j) {
 					v.Failf("non-contiguous-batch", "request %d: leaf %d has index %d, first leaf has %d", e.CallIdx, j, idx, e.First)
+				}
+				if gated := !c.NoCheck && cur.rootSize > 0; gated && cur.proven >= 0 && idx >= int64(cur.proven) && idx < int64(maxSTH) {
+					if !provenFlagged {
+						provenFlagged = true
+						v.Failf("write-beyond-proven-size", "index %d written on top of destination root (size %d): the source proved consistency of that root with tree size %d only; the bigger head (size %d) the entries were fetched under was obtained afterwards and never checked against the destination", idx, cur.rootSize, cur.proven, cur.sth)
+					}
 				}
 				if idx < 0 || idx >= int64(maxSTH) {
 					v.Failf("write-beyond-verified-size", "index %d written although the largest tree size the source has announced under a valid signature is %d", idx, maxSTH)
